@@ -20,3 +20,20 @@ pub assume_specification<P: core::str::pattern::Pattern> [str::replace::<P>] (s:
 pub open spec fn utf8_len(s: Seq<char>) -> nat { vstd::utf8::encode_utf8(s).len() }
 pub assume_specification [String::len] (s: &String) -> (r: usize)
     ensures r == utf8_len(s@);
+
+// ---- E11: transparent iterator newtype for `for _ in [0; 5]` (core::array::IntoIter has no vstd model) ----
+#[verifier::external_body]
+pub struct VxArrIter5(core::array::IntoIter<i32, 5>);
+pub uninterp spec fn vx_arr_remaining(it: &VxArrIter5) -> Seq<i32>;
+impl Iterator for VxArrIter5 {
+    type Item = i32;
+    #[verifier::external_body]
+    fn next(&mut self) -> (r: Option<i32>) { self.0.next() }
+}
+impl vstd::std_specs::iter::IteratorSpecImpl for VxArrIter5 {
+    open spec fn obeys_prophetic_iter_laws(&self) -> bool { true }
+    open spec fn remaining(&self) -> Seq<i32> { vx_arr_remaining(self) }
+    open spec fn will_return_none(&self) -> bool { true }
+    open spec fn decrease(&self) -> Option<nat> { Some(vx_arr_remaining(self).len()) }
+    open spec fn peek(&self, index: int) -> Option<i32> { if 0 <= index < vx_arr_remaining(self).len() { Some(vx_arr_remaining(self)[index]) } else { None } }
+}
